@@ -14,7 +14,7 @@ CLAIMS = {
                      "TLC enumerates is executed in guarded memory against the library built from /repo; TLC judges each recorded event (write faults, canary frame, cells outside dest).",
                 ref="§3 C01"),
     "C02": dict(level="model_checking", tech="TLA+ contract model + guard-page replay + TLC trace validation",
-                text="every readable extent of the enumerated calls is placed flush against an inaccessible page in both directions; a read fault is judged by the trace spec as a C02 violation",
+                text="every readable extent of the enumerated calls is placed flush against an inaccessible page in both directions (dest as well as src as the last object; string arguments of the formatted-output family cut to the N bytes a %.Ns directive may read, without a terminator); a read fault is judged by the trace spec as a C02 violation",
                 ref="§3 C02"),
     "C03": dict(level="model_checking", tech="TLA+ contract model checked by TLC (C03_T) + replay + TLC trace validation (C03_Direct)",
                 text="TLC checks that every admitted outcome of every string-producing call leaves a NUL inside dest; the trace spec evaluates the same predicate on every recorded post-state with dirty, NUL-free prior content",
